@@ -536,6 +536,7 @@ class PulseSequence:
         control_matrix: ndarray, shape (n_nops, d**2, n_omega)
             The control matrix for the noise operators.
         """
+        omega = np.asarray(omega)
         # Only calculate if not calculated before for the same frequencies
         if np.array_equal(self.omega, omega):
             if self.is_cached('control_matrix'):
@@ -589,6 +590,7 @@ class PulseSequence:
             required by other computations. Only applies if
             control_matrix is not supplied.
         """
+        omega = np.asarray(omega)
         if self.is_cached('omega') and not np.array_equal(self.omega, omega):
             # Caching for different frequencies. Remove all cached attributes
             # that are frequency-dependent
@@ -683,6 +685,7 @@ class PulseSequence:
                 \sum_{k} F_{\alpha\beta,kk}(\omega).
 
         """
+        omega = np.asarray(omega)
         # Only calculate if not calculated before for the same frequencies
         if np.array_equal(self.omega, omega):
             if order == 1:
@@ -767,6 +770,7 @@ class PulseSequence:
         --------
         PulseSequence.get_filter_function : Getter method
         """
+        omega = np.asarray(omega)
         if self.is_cached('omega') and not np.array_equal(self.omega, omega):
             # Caching for different frequencies. Remove all cached attributes
             # that are frequency-dependent
@@ -933,6 +937,7 @@ class PulseSequence:
             identifiers.
 
         """
+        omega = np.asarray(omega)
         c_idx = util.get_indices_from_identifiers(self.c_oper_identifiers, control_identifiers)
         n_idx = util.get_indices_from_identifiers(self.n_oper_identifiers, n_oper_identifiers)
 
@@ -971,6 +976,7 @@ class PulseSequence:
 
     def get_total_phases(self, omega: Coefficients) -> ndarray:
         """Get the (cached) total phase factors for this pulse and omega."""
+        omega = np.asarray(omega)
         # Only calculate if not calculated before for the same frequencies
         if np.array_equal(self.omega, omega):
             if self.is_cached('total_phases'):
@@ -996,6 +1002,7 @@ class PulseSequence:
             The total phase factors for the frequencies *omega*. If
             ``None``, they are computed.
         """
+        omega = np.asarray(omega)
         if self.is_cached('omega') and not np.array_equal(self.omega, omega):
             # Caching for different frequencies. Remove all cached attributes
             # that are frequency-dependent
